@@ -24,12 +24,29 @@ partial def valOfJson (j : Json) : R PyVal := do
   | "opaque" => return .opaque
   | t => throw s!"unknown value tag {t}"
 
+def rawOfJson (j : Json) : R Raw := do
+  match ← asStr (← idx j 0) with
+  | "dict" => return .dict (← asNat (← idx j 1))
+  | "list" => return .list (← asNat (← idx j 1))
+  | "str" => return .str (← asStr (← idx j 1))
+  | "int" => return .int (← asInt (← idx j 1))
+  | "bool" => return .bool (← asBool (← idx j 1))
+  | t => throw s!"unknown raw tag {t}"
+
+/-- `["none"] | ["mod", truthy, v] | ["raises", truthy, e] | ["invalid", raw]`; the older forms
+    `["mod", v]`, `["raises", e]`, `["invalid"]` (truthy objects, a non-empty dict) are still read -/
 def modOfJson (j : Json) : R ModSpec := do
+  let n := (← asArr j).length
   match ← asStr (← idx j 0) with
   | "none" => return .none
-  | "mod" => return .mod (← valOfJson (← idx j 1))
-  | "raises" => return .raises (← asStr (← idx j 1))
-  | "invalid" => return .invalid
+  | "mod" =>
+    if n == 2 then return .mod true (← valOfJson (← idx j 1))
+    else return .mod (← asBool (← idx j 1)) (← valOfJson (← idx j 2))
+  | "raises" =>
+    if n == 2 then return .raises true (← asStr (← idx j 1))
+    else return .raises (← asBool (← idx j 1)) (← asStr (← idx j 2))
+  | "invalid" =>
+    if n == 1 then return .invalid (.dict 1) else return .invalid (← rawOfJson (← idx j 1))
   | t => throw s!"unknown module tag {t}"
 
 def dictOfJson (j : Json) : R ModDict :=
@@ -107,6 +124,7 @@ def evOfJson (j : Json) : R Ev :=
     | "open" => return .openW (← asStr (← idx j 1))
     | "write" => return .write (← asStr (← idx j 1))
     | "remove" => return .remove (← asStr (← idx j 1))
+    | "mkdir" => return .mkdirSub (← asStr (← idx j 1))
     | t => throw s!"unknown event {t}"
 
 def evToJson : Ev → Json
@@ -117,6 +135,7 @@ def evToJson : Ev → Json
   | .write n => jArr [Json.str "write", Json.str n]
   | .remove n => jArr [Json.str "remove", Json.str n]
   | .mkdir => Json.str "mkdir"
+  | .mkdirSub n => jArr [Json.str "mkdir", Json.str n]
   | .prepared => Json.str "prepared"
   | .annotated => Json.str "annotated"
   | .outputsWritten => Json.str "outputs"
@@ -142,11 +161,17 @@ def prepOutToJson (o : PrepOut) : Json :=
 def prepOutOfJson (j : Json) : R PrepOut := do
   return ⟨← listOf evOfJson (← fld j "trace"), ← errOfJson (← fld j "err"), ← targetOfJson (← fld j "target")⟩
 
-def prepInOfJson (j : Json) : R PrepIn := do
-  let logName ← match fldD j "log" Json.null with
-    | .null => pure none
-    | l => do pure (some (← asStr l))
-  return ⟨← targetOfJson (← fld j "target"), ← strF j "input", logName⟩
+def strFD (j : Json) (k : String) (d : String) : String := (strF j k).toOption.getD d
+
+def callInOfJson (j : Json) : R CallIn := do
+  let name ← strF j "name"
+  return ⟨← targetOfJson (← fld j "target"), ← strF j "input", ← strF j "cwd", name,
+          ⟨strFD j "basename" "", name, ← strF j "logfile"⟩⟩
+
+/-- the invariants the theorems assume, on this input -/
+def inScope (c : CallIn) : Bool :=
+  (effective c).1.WF &&
+    (c.opts.outputBasename == "" || plainName c.opts.outputBasename.toList)
 
 /-- spec verdict on the implementation's own output, `false` when the harness could not observe one -/
 def onImpl {α} (j : Json) (parse : Json → R α) (spec : α → Bool) : Bool :=
@@ -180,23 +205,46 @@ def handle (j : Json) : R Json := do
         ("scope", toJson true)]
     | f => throw s!"unknown fn {f}"
   | "prepare" =>
-    let p ← prepInOfJson j
+    let c ← callInOfJson j
+    let p := (effective c).1
     let o := prepareOutputDir p
-    return jObj [("model", prepOutToJson o),
+    return jObj [("model", prepOutToJson o), ("name", Json.str p.name),
       ("spec", jObj [("accepts", toJson (specAccepts p)),
                      ("model_ok", toJson (specPrepare p o)),
                      ("impl_ok", toJson (onImpl j prepOutOfJson (specPrepare p)))]),
-      ("scope", toJson true)]
+      ("scope", toJson (inScope c))]
   | "pipeline" =>
-    let p : PipeIn := ⟨← prepInOfJson j, ← resultsOfJson (← fld j "results"), ← strF j "json"⟩
-    let o := runPipeline p
-    return jObj [("model", prepOutToJson o),
+    let c ← callInOfJson j
+    let written ← resultsOfJson (← fld j "results")
+    let results := if boolFD j "reload" false then reload written else written
+    let r : RunIn := ⟨c, results, strFD j "results_input" "seq.gbk"⟩
+    let p := r.toPipe
+    if boolFD j "outer" false then
+      let o := runAntismash r
+      return jObj [("model", prepOutToJson o), ("name", Json.str p.prep.name), ("json", Json.str p.jsonName),
+        ("place", Json.str (reprStr (logPlace p.prep))),
+        ("spec", jObj [("accepts", toJson (specAccepts (afterLogging p.prep))), ("fault", toJson p.results.hasFault),
+                       ("model_ok", toJson (specRun r o)),
+                       ("impl_ok", toJson (onImpl j prepOutOfJson (specRun r)))]),
+        ("scope", toJson (inScope c && (afterLogging p.prep).WF))]
+    let o := runTail r
+    return jObj [("model", prepOutToJson o), ("name", Json.str p.prep.name), ("json", Json.str p.jsonName),
       ("spec", jObj [("accepts", toJson (specAccepts p.prep)), ("fault", toJson p.results.hasFault),
                      ("model_ok", toJson (specPipeline p o)),
                      ("impl_ok", toJson (onImpl j prepOutOfJson (specPipeline p)))]),
-      ("scope", toJson true)]
-  | "regiongbk" =>
-    return jObj [("model", toJson (isRegionGbk (← strF j "name")))]
+      ("scope", toJson (inScope c))]
+  | "path" =>
+    -- the `posixpath` functions the model relies on, compared with the real ones
+    let a := (← strF j "a").toList
+    let b := (← strF j "b").toList
+    let sp := PosixPath.splitext a
+    return jObj [("model", jObj [
+      ("normpath", Json.str (String.ofList (PosixPath.normpath a))),
+      ("join", Json.str (String.ofList (PosixPath.join a b))),
+      ("abspath", Json.str (String.ofList (PosixPath.abspath a b))),
+      ("basename", Json.str (String.ofList (PosixPath.basename a))),
+      ("splitext", jArr [Json.str (String.ofList sp.1), Json.str (String.ofList sp.2)]),
+      ("isabs", toJson (PosixPath.isabs a))])]
   | k => throw s!"unknown kind {k}"
 
 end ASV.Drv.C20
